@@ -73,7 +73,11 @@ def run(tier):
             for ds in DSETS:
                 text, parts = concretise(src, ds, random.Random(st))
                 exp = "".join(parts[(p[0], p[1])] for p in v["out"])
-                jobs.append({"cfg": {"delims": DSETS[ds]}, "ctx": {"v": "<E>"}, "steps": [{"op": "render_str", "src": text, "auto": False}]})
+                steps = [{"op": "render_str", "src": text, "auto": False}]
+                if (vi + var) % 4 == 0:
+                    # the other way in: a registered template (same lexer, other entry point); must give the same text
+                    steps += [{"op": "add", "tpls": [["t.txt", text]]}, {"op": "render", "name": "t.txt"}]
+                jobs.append({"cfg": {"delims": DSETS[ds]}, "ctx": {"v": "<E>"}, "steps": steps})
                 meta.append((vi, var, ds, text, exp))
     # sources without any start delimiter render to themselves
     for core in CORES + ["}} %} #}", "{", "a { b } c", "é©«ë"]:
@@ -122,6 +126,9 @@ def run(tier):
             C.violation(dict(key, kind="panic"), "panic rendering %r under %s delimiters" % (text, ds), {"src": text, "delims": DSETS[ds]})
             continue
         got = x.get("out") if x.get("ok") else None
+        if len(rr) == 3 and (rr[2].get("ok"), rr[2].get("out")) != (x.get("ok"), x.get("out")) and not (not x.get("ok") and not rr[1].get("ok")):
+            C.violation(dict(key, kind="entry-point"), "%r under %s delimiters: render_str gives %r, the registered template %r" % (
+                text, ds, x.get("out") if x.get("ok") else "error", rr[2].get("out") if rr[2].get("ok") else "error: " + (rr[1].get("msg") or rr[2].get("msg") or "")[:80]), {"src": text, "delims": DSETS[ds]})
         if got != exp:
             C.violation(dict(key, kind="text"), "%r under %s delimiters renders %r, the statement gives %r" % (
                 text, ds, got if x.get("ok") else "error: " + (x.get("msg") or x.get("disp", ""))[:100], exp),
